@@ -117,6 +117,24 @@ theorem no_deadlock_with_data {s : St} (h : Reachable s) (hc : s.chan ≠ []) (t
     ∃ u, enabled s u = true ∧ (s.loc u).pc ≠ .bS :=
   no_deadlock_with_data_strong h hc t ht hb
 
+/-- **Nobody sleeps through the end of the stream.** Once the peer has closed the stream (or the connection
+has been closed), a thread inside a call or a serving loop is never stuck: some thread other than a sleeping
+background thread has an enabled step, and needs no timeout for it.  (The receiver that meets the EOF runs
+`self.close(); raise` and still goes through `finally: release; notify_all`, so the threads parked in
+`serve`'s wait-for-lock branch are woken, find the closed channel and leave with `EOFError` themselves.) -/
+theorem no_parking_after_eof {s : St} (h : Reachable s) (he : s.eof = true ∨ s.closed = true) (t : Tid)
+    (ht : (s.loc t).pc ≠ .idle) (hb : (s.loc t).pc ≠ .bS) :
+    ∃ u, enabled s u = true ∧ (s.loc u).pc ≠ .bS :=
+  Rpyc.Conc.Serve.no_parking_after_eof h he t ht hb
+
+/-- on a closed connection a thread in the wait-set always has its wake-up on the way: an enabled thread that
+holds the receive lock (it will release and notify), or is about to notify, or holds the condition's lock the
+notifier is waiting for -/
+theorem waiter_woken_after_close {s : St} (h : Reachable s) (hc : s.closed = true) (t : Tid) (ht : t ∈ s.waiters) :
+    ∃ u, enabled s u = true ∧ ((s.loc u).pc.holdsRecv = true ∨ (s.loc u).pc = .n0 ∨ (s.loc u).pc = .n1 ∨
+      (s.loc u).pc.holdsCond = true) :=
+  waiter_has_waker_after_close h hc t ht
+
 /-- **Publication order.** A reader that sees `ready` sees the value: `ready` implies the result was
 stored, exactly once, and it is the peer's answer to this seq. -/
 theorem publication_order {s : St} (h : Reachable s) (q : Seq) (hr : (s.cells q).ready = true) :
@@ -162,6 +180,22 @@ def crossed : List Actor := contended ++ r 1 11 ++ r 2 5
 example : ∃ s, run init crossed = some s ∧ (s.loc 2).result = some (.value (some false) (some 77)) ∧
     s.dcount 0 = 1 ∧ s.completions 1 = 1 ∧ s.popper 1 = some 1 ∧ (s.loc 2).pc = .idle := by
   refine ⟨(run init crossed).get (by decide), by simp, ?_⟩
+  decide
+
+/-- end of stream while client 1 is in `poll` and client 2 (no expiry) sleeps on the condition: client 1 meets the
+EOF, closes, releases, notifies and leaves with `EOFError`; client 2 wakes up, finds the closed channel and leaves
+with `EOFError` too; nobody is left inside a call -/
+def eofWhileParked : List Actor :=
+  [.call 1 (some 9), .call 2 none] ++ r 1 3 ++ r 2 2 ++ r 1 5 ++ r 2 5 ++ [.peerEof]
+
+example : ∃ s, run init eofWhileParked = some s ∧ s.eof = true ∧ s.closed = false ∧ s.waiters = [2] ∧
+    (s.loc 1).pc = .p0 ∧ (s.loc 2).pc = .zz ∧ (s.loc 2).wdl = none ∧ enabled s 1 = true := by
+  refine ⟨(run init eofWhileParked).get (by decide), by simp, ?_⟩
+  decide
+
+example : ∃ s, run init (eofWhileParked ++ r 1 7 ++ r 2 14) = some s ∧ s.closed = true ∧ s.waiters = [] ∧
+    (s.loc 1).pc = .idle ∧ (s.loc 1).result = some .eof ∧ (s.loc 2).pc = .idle ∧ (s.loc 2).result = some .eof := by
+  refine ⟨(run init (eofWhileParked ++ r 1 7 ++ r 2 14)).get (by decide), by simp, ?_⟩
   decide
 
 example : ∃ s, Reachable s ∧ s.waiters ≠ [] ∧ s.chan ≠ [] :=
